@@ -889,7 +889,7 @@ class Mesh:
         m = self
         has_boundaries = self.boundaries is not None
         has_subdomains = self.subdomains is not None
-        if isinstance(times_or_ix, int):
+        if isinstance(times_or_ix, (int, np.integer)):
             for _ in range(times_or_ix):
                 mtmp = m._uniform()
                 # fix subdomains for remaining mesh types
